@@ -8,4 +8,5 @@ func genAll() {
 	genSecrets()
 	genMirrors()
 	genRouting()
+	genPersist()
 }
